@@ -14,7 +14,11 @@ import (
 	"github.com/cloudflare/circl/kem/sike/sikep434"
 	"github.com/cloudflare/circl/kem/sike/sikep503"
 	"github.com/cloudflare/circl/kem/sike/sikep751"
+	"github.com/cloudflare/circl/kem/mlkem/mlkem1024"
+	"github.com/cloudflare/circl/kem/mlkem/mlkem512"
+	"github.com/cloudflare/circl/kem/mlkem/mlkem768"
 	"github.com/cloudflare/circl/kem/xwing"
+	pkekyber768 "github.com/cloudflare/circl/pke/kyber/kyber768"
 	"github.com/cloudflare/circl/pki"
 	"github.com/cloudflare/circl/sign"
 	"github.com/cloudflare/circl/sign/bls"
@@ -105,6 +109,61 @@ func init() {
 		_ = p
 		_ = sk
 		_ = ct
+	}
+
+	// ML-KEM package-level decoders that report errors
+	{
+		pk, sk := mlkem768.NewKeyFromSeed(seedBytes("mlkem768", 0, mlkem768.KeySeedSize))
+		ct := make([]byte, mlkem768.CiphertextSize)
+		ss := make([]byte, mlkem768.SharedKeySize)
+		pk.EncapsulateTo(ct, ss, seedBytes("mlkem768", 1, 32))
+		reg("KEM", entry{name: "mlkem768.PublicKey.Unpack", seeds: [][]byte{mb(pk)}, f: func(b []byte) {
+			var q mlkem768.PublicKey
+			if q.Unpack(b) == nil {
+				c := make([]byte, mlkem768.CiphertextSize)
+				k := make([]byte, mlkem768.SharedKeySize)
+				q.EncapsulateTo(c, k, make([]byte, 32))
+			}
+		}})
+		reg("KEM", entry{name: "mlkem768.PrivateKey.Unpack", seeds: [][]byte{mb(sk)}, f: func(b []byte) {
+			var q mlkem768.PrivateKey
+			if q.Unpack(b) == nil {
+				k := make([]byte, mlkem768.SharedKeySize)
+				q.DecapsulateTo(k, ct)
+			}
+		}})
+		reg("KEM", entry{name: "mlkem768.PrivateKey.DecapsulateTo", seeds: [][]byte{ct}, fixed: mlkem768.CiphertextSize, f: func(b []byte) {
+			k := make([]byte, mlkem768.SharedKeySize)
+			sk.DecapsulateTo(k, b)
+		}})
+		var ppk pkekyber768.PublicKey
+		reg("KEM", entry{name: "pke/kyber768.PublicKey.UnpackMLKEM", seeds: [][]byte{mb(pk)[:pkekyber768.PublicKeySize]}, f: func(b []byte) {
+			var q pkekyber768.PublicKey
+			_ = q.UnpackMLKEM(b)
+		}})
+		_ = ppk
+	}
+	{
+		pk, sk := mlkem512.NewKeyFromSeed(seedBytes("mlkem512", 0, mlkem512.KeySeedSize))
+		reg("KEM", entry{name: "mlkem512.PublicKey.Unpack", seeds: [][]byte{mb(pk)}, f: func(b []byte) {
+			var q mlkem512.PublicKey
+			_ = q.Unpack(b)
+		}})
+		reg("KEM", entry{name: "mlkem512.PrivateKey.Unpack", seeds: [][]byte{mb(sk)}, f: func(b []byte) {
+			var q mlkem512.PrivateKey
+			_ = q.Unpack(b)
+		}})
+	}
+	{
+		pk, sk := mlkem1024.NewKeyFromSeed(seedBytes("mlkem1024", 0, mlkem1024.KeySeedSize))
+		reg("KEM", entry{name: "mlkem1024.PublicKey.Unpack", seeds: [][]byte{mb(pk)}, f: func(b []byte) {
+			var q mlkem1024.PublicKey
+			_ = q.Unpack(b)
+		}})
+		reg("KEM", entry{name: "mlkem1024.PrivateKey.Unpack", seeds: [][]byte{mb(sk)}, f: func(b []byte) {
+			var q mlkem1024.PrivateKey
+			_ = q.Unpack(b)
+		}})
 	}
 
 	// ---------------- signature schemes
